@@ -203,27 +203,29 @@ Definition ZERO_RUN_K : Z := 0%Z.
 
 (* for ; j < 8; j++ { if nonzero { break }
      if zeros := j - i; zeros > K && zeros > endZ-startZ { startZ = i; endZ = j } } *)
-Fixpoint ip6_inner (ip : bytes) (i : nat) (js : list nat) (se : Z * Z) : Z * Z :=
+(* z j: "group j of ip is zero" (gz ip j below) *)
+Fixpoint ip6_inner (z : nat -> bool) (i : nat) (js : list nat) (se : Z * Z) : Z * Z :=
   match js with
   | [] => se
   | j :: r =>
-      if gz ip j then
+      if z j then
         let zeros := (Z.of_nat j - Z.of_nat i)%Z in
         let se' := if (ZERO_RUN_K <? zeros)%Z && (snd se - fst se <? zeros)%Z
                    then (Z.of_nat i, Z.of_nat j) else se in
-        ip6_inner ip i r se'
+        ip6_inner z i r se'
       else se
   end.
 (* for i := 0; i < 8; i++ { j := i; inner } *)
-Fixpoint ip6_outer (ip : bytes) (is : list nat) (se : Z * Z) : Z * Z :=
+Fixpoint ip6_outer (z : nat -> bool) (is : list nat) (se : Z * Z) : Z * Z :=
   match is with
   | [] => se
-  | i :: r => ip6_outer ip r (ip6_inner ip i (seq i (8 - i)) se)
+  | i :: r => ip6_outer z r (ip6_inner z i (seq i (8 - i)) se)
   end.
 (* startZ := -1; endZ := -1; loops; if endZ == startZ { startZ = 99 } *)
-Definition ip6_search (ip : bytes) : Z * Z :=
-  let se := ip6_outer ip (seq 0 8) ((-1)%Z, (-1)%Z) in
+Definition ip6_search_z (z : nat -> bool) : Z * Z :=
+  let se := ip6_outer z (seq 0 8) ((-1)%Z, (-1)%Z) in
   if (snd se =? fst se)%Z then (99%Z, snd se) else se.
+Definition ip6_search (ip : bytes) : Z * Z := ip6_search_z (gz ip).
 
 (* body of: for i := 0; i < 8; i++ {
      if i == startZ { if startZ == 0 { appendByte(':') }; appendByte(':'); continue }
